@@ -26,7 +26,8 @@ ID = "C10"
 RULE = ("grammar-directed manifests (1-4 streams, 1-5 blocks of size 0-20 drawn from a per-manifest pool so that "
         "blocks repeat, interior zero-length blocks, file tokens starting/ending at every block-boundary alignment "
         "(on, one before, one after, inside), zero-length and repeated file tokens, names with space, colon, "
-        "backslash, backslash-digit sequences, control and non-ASCII bytes, filenames with '/'), every codec run on "
+        "backslash, backslash-digit sequences, control and non-ASCII bytes (raw and as \\ooo escapes), filenames with '/', "
+        "sibling directories whose names are string prefixes of each other), every codec run on "
         "each manifest, every (srcpath, relocate) pair over the manifest's directories/files for Extract; direct "
         "binary-search cases over non-decreasing offset arrays; escape round trips on random byte strings; "
         "grammar-valid manifests with a file/directory conflict; streams with block sizes near 2^63 (lengths up to "
@@ -446,9 +447,12 @@ def oracle(case, impl):
             return None
     if op in ("m.esc", "a.esc"):
         n = unhex(f[1])
-        e, _, ue = impl.split(" ")
+        e, u, ue = impl.split(" ")
         if unhex(ue) != n:
             return "unescape(escape(name)) differs from name"
+        spec_u = ref_unescape(n)
+        if spec_u is not None and unhex(u) != spec_u:
+            return f"unescape of {n!r} gives {unhex(u)!r}, the escape rule (\\ooo = byte value) says {spec_u!r}"
         if any(c <= 0x20 for c in unhex(e)):
             return "escaped name contains a delimiter/control byte"
         return None
@@ -610,10 +614,12 @@ DIR_ATOMS = [b"d", b"e", b"dir", b"a b", b"s:t", b"b\\s", b"\\040", b"\xc3\xa9",
 
 
 def esc_name(rng, name, colon=False):
-    """writer: a valid escaped form of `name` (mandatory escapes plus a few gratuitous ones)"""
+    """writer: a valid escaped form of `name` (mandatory escapes plus a few gratuitous ones; now and then every
+    non-ASCII byte is written as an escape, as other writers do)"""
     out = bytearray()
+    high = rng.random() < 0.15
     for c in name:
-        if c <= 0x20 or c == 0x5c or c == 0x7f or (c == 0x3a and colon) or rng.random() < 0.03:
+        if c <= 0x20 or c == 0x5c or c == 0x7f or (c == 0x3a and colon) or (high and c >= 0x80) or rng.random() < 0.03:
             out += b"\\%03o" % c
         else:
             out.append(c)
@@ -652,6 +658,9 @@ def gen_valid(rng, avoid_conflict=True):
     for _ in range(rng.randint(0, 3)):
         base = rng.choice(dirs)
         dirs.append(base + b"/" + rng.choice(DIR_ATOMS))
+    if len(dirs) > 1 and rng.random() < 0.35:
+        # a look-alike sibling: the name of an existing directory plus more characters (string prefix, not path prefix)
+        dirs.append(rng.choice(dirs[1:]) + rng.choice([b"b", b".d", b" x", b"0", b"\\", b"\xc3\xa9", b":"]))
     fnames = [rng.choice(NAME_ATOMS) for _ in range(rng.randint(1, 4))]
     if rng.random() < 0.3:
         fnames.append(rng.choice(DIR_ATOMS) + b"/" + rng.choice(NAME_ATOMS))
@@ -845,7 +854,13 @@ def ext_pairs(rng, ref, tier):
     pairs = [(s, r) for s in srcs for r in rels]
     cap = 24 if tier == "quick" else 40
     if len(pairs) > cap:
-        pairs = rng.sample(pairs, cap)
+        # boundary class kept in any case: a source that is a string prefix of another path without being its parent
+        allp = dirs + files
+        edge = [s for s in dirs + files if s != b"." and
+                any(q != s and q.startswith(s) and not q.startswith(s + b"/") for q in allp)]
+        keep = [(s, r) for s in edge for r in rels[:3]]
+        rest = [pr for pr in pairs if pr not in keep]
+        pairs = keep + rng.sample(rest, max(0, cap - len(keep)))
     return pairs
 
 
@@ -923,8 +938,12 @@ def generate(rng, tier):
             n = bytes(rng.choice(b"\\\\\\0123456789 :a\n\xff") for _ in range(rng.randint(0, 12)))
         elif r < 0.7:
             n = b"".join(rng.choice(NAME_ATOMS + DIR_ATOMS) for _ in range(rng.randint(1, 3)))
-        else:
+        elif r < 0.85:
             n = bytes(rng.randrange(256) for _ in range(rng.randint(0, 16)))
+        else:
+            # an escaped token inside the escape rule: \ooo for arbitrary byte values 000-377 between plain bytes
+            n = b"".join((b"\\%03o" % rng.randrange(256)) if rng.random() < 0.6 else bytes([rng.choice(b"abz09.~")])
+                         for _ in range(rng.randint(1, 8)))
         out += [f"m.esc {hx(n)}", f"a.esc {hx(n)}", f"p.esc {hx(n)}"]
     return out
 
